@@ -112,7 +112,7 @@ structure Writer where
   enabled : Bool
   /-- `qos.resource_limits.max_instances` (`none` = unlimited) -/
   maxInst : Option Nat
-  /-- `registered_instance_info` (keys in push order; an entry is never removed, data_writer_entity.rs:258-312) -/
+  /-- the keys of the entries of `registered_instance_info` whose `registered` flag is set (fixes/D33.patch) -/
   registered : List Int
   deriving DecidableEq, Repr
 
@@ -288,37 +288,42 @@ def hasRoom (w : Writer) : Bool :=
 /-- the key a sample of this writer's type hashes to: keyless types have the one all-zero handle (key 0) -/
 def keyOfSample (w : Writer) (k : Int) : Int := if w.keyed then k else 0
 
-/-- one instance operation on a writer that was found (enabled / keyless / lookup checks in code order).
+def notKey (k : Int) (x : Int) : Bool := !(x == k)
+
+/-- one instance operation on a writer that was found (enabled / keyless / known-instance checks in code order),
+    WITH fixes/D33.patch (an instance is known from register_instance / its first write until unregister_instance:
+    the entry of `registered_instance_info` stays for the sample bookkeeping, its `registered` flag is cleared —
+    the model's list holds exactly the keys whose flag is set) and fixes/D33b.patch (keyless check in lookup_instance).
     Assumptions (stated in the property module): history/resource limits other than max_instances never
     refuse a write, no matched reliable reader withholds an acknowledgement. -/
 def wop (w : Writer) (o : WOp) : Writer × Res :=
   match o with
   | .register k =>
-    if !w.enabled then (w, .err .notEnabled)                    -- data_writer_entity.rs:226
-    else if !w.keyed then (w, .err .illegalOperation)          -- :233
-    else if w.registered.contains k then (w, .inst (some k))   -- :239 (only the time stamp changes)
-    else if hasRoom w then ({ w with registered := w.registered ++ [k] }, .inst (some k))  -- :245
-    else (w, .err .outOfResources)                             -- :252
+    if !w.enabled then (w, .err .notEnabled)                    -- data_writer_entity.rs register_w_timestamp
+    else if !w.keyed then (w, .err .illegalOperation)
+    else if w.registered.contains k then (w, .inst (some k))   -- is_registered: only the time stamp changes
+    else if hasRoom w then ({ w with registered := w.registered ++ [k] }, .inst (some k))  -- mark_registered
+    else (w, .err .outOfResources)                             -- has_room_for_new_instance
   | .unregister k =>
-    if !w.enabled then (w, .err .notEnabled)                    -- :266
-    else if !w.keyed then (w, .err .illegalOperation)          -- :273
-    else if w.registered.contains k then (w, .ok)              -- :278 the entry STAYS in the list (D33)
-    else (w, .err .badParameter)                               -- :283
+    if !w.enabled then (w, .err .notEnabled)
+    else if !w.keyed then (w, .err .illegalOperation)
+    else if w.registered.contains k then ({ w with registered := w.registered.filter (notKey k) }, .ok)  -- flag cleared
+    else (w, .err .badParameter)
   | .dispose k =>
-    if !w.enabled then (w, .err .notEnabled)                    -- :179
-    else if !w.keyed then (w, .err .illegalOperation)          -- :186
-    else if w.registered.contains k then (w, .ok)              -- :192
-    else (w, .err .badParameter)                               -- :197
+    if !w.enabled then (w, .err .notEnabled)
+    else if !w.keyed then (w, .err .illegalOperation)
+    else if w.registered.contains k then (w, .ok)
+    else (w, .err .badParameter)
   | .lookup k =>
-    if !w.enabled then (w, .err .notEnabled)                    -- writer_methods.rs:271
-    -- no keyless check (D33); writer_methods.rs:290
-    else if w.registered.contains (keyOfSample w k) then (w, .inst (some (keyOfSample w k)))
+    if !w.enabled then (w, .err .notEnabled)                    -- writer_methods.rs lookup_instance
+    else if !w.keyed then (w, .err .illegalOperation)          -- fixes/D33b
+    else if w.registered.contains k then (w, .inst (some k))
     else (w, .inst none)
   | .write k =>
-    if !w.enabled then (w, .err .notEnabled)                    -- writer_methods.rs:327
-    else if w.registered.contains (keyOfSample w k) then (w, .ok)     -- data_writer_entity.rs:79
-    else if hasRoom w then ({ w with registered := w.registered ++ [keyOfSample w k] }, .ok)  -- :84
-    else (w, .err .outOfResources)                             -- :91
+    if !w.enabled then (w, .err .notEnabled)
+    else if w.registered.contains (keyOfSample w k) then (w, .ok)
+    else if hasRoom w then ({ w with registered := w.registered ++ [keyOfSample w k] }, .ok)
+    else (w, .err .outOfResources)
 
 /-! ### operations -/
 
@@ -333,7 +338,9 @@ inductive Op where
   | deleteSub (via : Nat) (r : GroupRef)
   | createTopic (ph : Nat) (name : String) (keyed : Bool)
   | deleteTopic (via : Nat) (r : TopicRef)
-  | createCft (r : TopicRef) (name : String)
+  /-- `valid` = the filter expression and its parameters pass the check of `create_content_filtered_topic`
+      (`<member> <= …` or `<member> = …` on an INT32 / string member of the related type, first parameter an integer) -/
+  | createCft (r : TopicRef) (name : String) (valid : Bool)
   | deleteCft (ph : Nat) (name : String)
   /-- `consistent` = `DataWriterQos::is_consistent` of the requested QoS -/
   | createWriter (r : GroupRef) (topic : String) (maxInst : Option Nat) (consistent : Bool)
@@ -454,11 +461,12 @@ def deleteTopic (s : St) (via : Nat) (r : TopicRef) : St × Res :=
         else ({ s with topics := s.topics.filter (notTopicN p.uid r.name) }, .ok)                -- :347 retain
 
 /-- participant_methods.rs:355; the mail goes to the related topic's participant (domain_participant.rs:236) -/
-def createCft (s : St) (r : TopicRef) (name : String) : St × Res :=
+def createCft (s : St) (r : TopicRef) (name : String) (valid : Bool) : St × Res :=
   match findPart s r.ph with
   | none => (s, .err .alreadyDeleted)
   | some p =>
-    if !(s.topics.any (isTopicN p.uid r.name)) then (s, .err .preconditionNotMet)   -- :363
+    if !(s.topics.any (isTopicN p.uid r.name)) then (s, .err .preconditionNotMet)   -- related topic must exist
+    else if !valid then (s, .err .badParameter)                -- unsupported filter expression / parameters
     else
       let n := s.topicEver p.uid
       if overflows n U16 then (s, .err .outOfResources)         -- :392 `checked_add` (fixes/D40)
@@ -651,7 +659,7 @@ def step (s : St) (op : Op) : St × Res :=
   | .deleteSub via r => deleteSub s via r
   | .createTopic ph n k => createTopic s ph n k
   | .deleteTopic via r => deleteTopic s via r
-  | .createCft r n => createCft s r n
+  | .createCft r n v => createCft s r n v
   | .deleteCft ph n => deleteCft s ph n
   | .createWriter r t m c => createWriter s r t m c
   | .deleteWriter via w => deleteWriter s via w
